@@ -289,6 +289,86 @@ pub fn check(cfg: &Config, src: &str, is_call: bool, l: &mut Local) -> Outcome {
     Ok(())
 }
 
+// ---------------------------------------------------------------------------------------------
+// random programs over names that live in both namespaces
+// ---------------------------------------------------------------------------------------------
+
+/// Names used both as variables and as functions; most are builtins, so that every call has up to
+/// three candidate resolutions (context function, builtin, nothing) and a same-named variable.
+const SHARED: [&str; 10] = ["f", "g", "min", "len", "typeof", "if", "max", "str::from", "math::abs", "floor"];
+
+#[derive(Clone, Debug)]
+pub struct Prog {
+    ast: refmodel::ast::Ast,
+    bits: Vec<bool>,
+    style: u8,
+    ctx: Ctx,
+}
+
+fn arb_prog(depth: u32) -> proptest::strategy::BoxedStrategy<Prog> {
+    use proptest::prelude::*;
+    let names: Vec<String> = SHARED.iter().map(|s| s.to_string()).collect();
+    let mut cfg = refmodel::gen::AstCfg::structural(depth);
+    cfg.vars = names.clone();
+    cfg.funcs = names.clone();
+    let wraps = proptest::collection::vec((0usize..SHARED.len(), any::<bool>()), 0..3);
+    (refmodel::gen::arb_ast(&cfg), wraps, refmodel::gen::arb_bits(), 0u8..2, refmodel::gen::arb_ctx(names.clone(), names), any::<bool>())
+        .prop_map(|(mut ast, wraps, bits, style, mut ctx, disabled)| {
+            // call chains around the generated expression: `f g e`, `f(g(e), e)`
+            for (i, pair) in wraps {
+                let arg = if pair { refmodel::ast::Ast::Tuple(vec![ast.clone(), ast]) } else { ast };
+                ast = refmodel::ast::Ast::Call(SHARED[i].to_string(), Box::new(arg));
+            }
+            ctx.builtins_disabled = disabled;
+            // the known finding is keyed in the matrix; keep it out of this family by construction
+            let not_found: Vec<String> = ctx.funcs.iter().filter(|(_, f)| matches!(f, UF::NotFound(_))).map(|(k, _)| k.clone()).collect();
+            for k in not_found {
+                ctx.funcs.insert(k, UF::Tag(4));
+            }
+            Prog { ast, bits, style, ctx }
+        })
+        .boxed()
+}
+
+fn count_contested(a: &refmodel::ast::Ast, ctx: &Ctx, calls: &mut usize, contested: &mut usize) {
+    use refmodel::ast::Ast::*;
+    match a {
+        Lit(_) | Var(_) | Empty | Opaque(_) | Malformed(_) => {},
+        Call(n, x) => {
+            *calls += 1;
+            let c = ctx.funcs.contains_key(n) as u8 + is_builtin(n) as u8 + ctx.vars.contains_key(n) as u8;
+            if c >= 2 {
+                *contested += 1;
+            }
+            count_contested(x, ctx, calls, contested);
+        },
+        Neg(x) | Not(x) | Paren(x) | Assign(_, _, x) => count_contested(x, ctx, calls, contested),
+        Bin(_, l, r) => {
+            count_contested(l, ctx, calls, contested);
+            count_contested(r, ctx, calls, contested);
+        },
+        Tuple(v) | Chain(v) => v.iter().for_each(|x| count_contested(x, ctx, calls, contested)),
+    }
+}
+
+fn check_prog(p: &Prog, l: &mut Local) -> Outcome {
+    let toks = refmodel::ast::render_tokens(&p.ast, &mut refmodel::ast::BitChoices::new(&p.bits));
+    let src = crate::programs::render_style(&toks, p.style);
+    let (mut calls, mut contested) = (0, 0);
+    count_contested(&p.ast, &p.ctx, &mut calls, &mut contested);
+    if calls >= 1 {
+        l.label("random program with a call");
+    }
+    if contested >= 1 {
+        l.label("random program: a called name has two or more candidates (context function / builtin / variable)");
+        l.nontrivial_key(&src);
+    }
+    if p.ctx.builtins_disabled {
+        l.label("random program: builtins disabled");
+    }
+    crate::c08::check_source_with("C09", &src, &p.ctx, Some(&p.ast), &SHARED, false, l)
+}
+
 fn configs() -> Vec<Config> {
     let mut v = Vec::new();
     for name in all_names() {
@@ -343,7 +423,12 @@ pub fn run(rep: &Report) {
          from {int, float, string, bool, variable, one-element tuple variable, empty tuple variable}; oracle: the reference interpreter's resolution rule (context \
          function first, builtin only if none and not disabled, else FunctionIdentifierNotFound(n) exactly; variables \
          in a separate namespace) with the recording functions' call log (callee and exact argument shape). \
-         Non-trivial: configurations with two candidate resolutions.",
+         Non-trivial: configurations with two candidate resolutions. Beyond the matrix: random programs (nested and \
+         juxtaposed calls, assignments to and reads of variables named like functions, tuples, chains, operators) over \
+         10 names that are used both as variables and as functions (8 of them builtins), in random HashMapContexts \
+         (each name independently bound as a variable and / or as a context function, switch on or off), compared with \
+         the reference interpreter on result, call log and final variables; non-trivial there: a called name has two \
+         or more candidates.",
     );
     rep.assume("builtin results are those of the C10 reference; D11 regions are skipped");
     let cfgs = configs();
@@ -357,12 +442,19 @@ pub fn run(rep: &Report) {
         }
         check(&cfgs[ci], src, *is_call, l)
     });
-    rep.set_exhaustive(true);
+    rep.add_extra("matrix_is_exhaustive", json!(true));
     rep.add_extra("configurations", json!(cfgs.len()));
     rep.add_extra("sources_per_configuration", json!(n_src));
     if let Err(f) = check_empty_toggles() {
         rep.fail("empty-toggles", &f.signature, f.case, f.expected, f.actual, f.size);
     }
+    // random programs (the matrix above is complete only over single calls)
+    let n = rep.tier.pick(300_000u64, 6_000_000);
+    let depth = rep.tier.pick(3u32, 5);
+    common::random_search(rep, "programs", 80, n, &move || arb_prog(depth), &|p: &Prog, l| {
+        l.sample(3, || json!(tok::render_spaced(&refmodel::ast::render_tokens(&p.ast, &mut refmodel::ast::Minimal))));
+        check_prog(p, l)
+    });
 }
 
 pub fn replay(case: &J, rep: &Report) {
@@ -370,6 +462,10 @@ pub fn replay(case: &J, rep: &Report) {
     l.evaluations = 1;
     let r = if case["kind"].as_str() == Some("empty-toggles") {
         check_empty_toggles()
+    } else if case["kind"].as_str() == Some("program") {
+        let src = case["src"].as_str().unwrap_or_else(|| common::bad_case("src"));
+        let ctx = common::ctx_from_json(&case["ctx"]).unwrap_or_else(|| common::bad_case("ctx"));
+        crate::c08::check_source_with("C09", src, &ctx, None, &SHARED, false, &mut l)
     } else {
         let (cfg, src) = Config::from_json(case).unwrap_or_else(|| common::bad_case("config"));
         let is_call = src.contains('(') || src.contains(' ');
